@@ -250,6 +250,9 @@ def _worker(conn, chunk, hang_s):
     conn.close()
 
 
+MAX_TIMEOUTS = 40
+
+
 def run_sessions(indexed: list, hang_s: int) -> list:
     """Sessions in worker processes under a watchdog: the in-process alarm cannot interrupt a call that is stuck inside
     C code (a regular expression that backtracks for ever), so a worker that stays on one input for longer than
@@ -297,6 +300,13 @@ def run_sessions(indexed: list, hang_s: int) -> list:
                 rest = [it for it in st["items"] if it[0] not in results]
                 del live[conn]
                 spawn(rest)
+        # enough is enough: a tree in which dozens of inputs hang is reported with what was seen so far, not after hours
+        if sum(1 for ev in results.values() if ev[-1].startswith("timeout")) >= MAX_TIMEOUTS:
+            for conn, st in list(live.items()):
+                st["proc"].kill()
+                st["proc"].join()
+                del live[conn]
+            break
     return sorted(results.items())
 
 
@@ -371,6 +381,9 @@ def run(prop: str, tier: str) -> int:
     t0 = time.time()
     results = run_sessions(indexed, HANG_S)
     res.coverage["session_wall_s"] = round(time.time() - t0, 1)
+    if len(results) < len(indexed):
+        res.coverage["sessions_not_run"] = len(indexed) - len(results)
+        res.notes.append(f"stopped after {MAX_TIMEOUTS} sessions that did not return: {len(indexed) - len(results)} sessions not run")
     path = os.path.join(scratch("sess"), "sessions.ndjson")
     with open(path, "w") as f:
         for i, ev in results:
